@@ -307,7 +307,14 @@ class Result:
             rep = u.report
             info = {"unit": u.name, "rc": u.rc, "wall_s": round(u.wall, 1)}
             if rep is None:
-                self.broken.append("unit %s produced no report (rc=%s)\n%s" % (u.name, u.rc, u.output[-3000:]))
+                arts = []
+                if u.artifact_prefix:
+                    arts = sorted(glob.glob(u.artifact_prefix + "crash-*") + glob.glob(u.artifact_prefix + "leak-*"), key=os.path.getmtime)
+                if arts and u.rc != 0:
+                    # a libFuzzer unit that died (sanitizer / assertion) before its first report flush: the artifact is the evidence
+                    self.failures.append({"sig": "crash:sanitizer:" + u.group, "replay": arts[-1], "msg": u.output[-4000:], "unit": u.name})
+                else:
+                    self.broken.append("unit %s produced no report (rc=%s)\n%s" % (u.name, u.rc, u.output[-3000:]))
                 self.units.append(info)
                 continue
             info.update({k: rep.get(k) for k in ("evaluations", "nontrivial", "inconclusive") if k in rep})
